@@ -36,6 +36,9 @@ pub enum Op {
     Flush(u8),
     /// yield once to the executor (the task is woken immediately)
     Yield,
+    /// poll a read of n bytes ONCE and abandon it if it is not ready (a handler racing the read
+    /// against a timeout); only generated as the last operation before the handler returns
+    TryRead(usize),
 }
 
 #[derive(Clone, Debug)]
@@ -66,6 +69,7 @@ pub struct Invocation {
     /// executor step (world clock) at which the invocation started
     pub started_at: u64,
     pub output_stream_panics: u32,
+    pub abandoned_reads: u32,
 }
 
 #[derive(Default)]
@@ -226,6 +230,28 @@ async fn interpret(req: &mut Req<'_>, script: Script, log: SharedLog, idx: usize
                     }
                 }
             }
+            Op::TryRead(n) => {
+                use std::future::Future;
+                let mut buf = vec![0u8; *n];
+                let active = req.active_stream().map_or(0, u8::from);
+                let r = {
+                    let mut fut = req.read(&mut buf);
+                    std::future::poll_fn(|cx| std::task::Poll::Ready(std::pin::Pin::new(&mut fut).poll(cx))).await
+                };
+                match r {
+                    std::task::Poll::Ready(Ok(k)) => {
+                        let mut l = log.lock().unwrap();
+                        let inv = &mut l.invocations[idx];
+                        if k == 0 && *n > 0 {
+                            inv.eofs.push(active);
+                        } else if k > 0 {
+                            inv.reads.push((active, buf[..k].to_vec()));
+                        }
+                    }
+                    std::task::Poll::Ready(Err(e)) => fail!("read", e),
+                    std::task::Poll::Pending => log.lock().unwrap().invocations[idx].abandoned_reads += 1,
+                }
+            }
             Op::Yield => {
                 let mut once = false;
                 std::future::poll_fn(|cx| {
@@ -359,6 +385,9 @@ pub fn gen_script(rng: &mut Rng, role: u16, big_writes: bool) -> Script {
             ops.push(Op::Flush(stream));
         }
     }
+    if rng.chance(1, 6) {
+        ops.push(Op::TryRead(*rng.pick(&[1usize, 16, 500])));
+    }
     Script { ops, propagate: rng.chance(1, 2), status: *rng.pick(&STATUSES) }
 }
 
@@ -376,6 +405,7 @@ pub fn script_class(s: &Script) -> u64 {
             Op::Write(s, _) => 8 + u64::from(*s & 1),
             Op::Flush(_) => 10,
             Op::Yield => 11,
+            Op::TryRead(_) => 12,
         };
         h |= 1 << k;
     }
